@@ -54,7 +54,9 @@ func (mc multiCore) With(fields []Field) Core {
 }
 
 func (mc multiCore) Level() Level {
-	minLvl := _maxLevel // mc is never empty
+	// Start from InvalidLevel so that a tee whose cores enable nothing
+	// reports InvalidLevel rather than FatalLevel.
+	minLvl := InvalidLevel
 	for i := range mc {
 		if lvl := LevelOf(mc[i]); lvl < minLvl {
 			minLvl = lvl
